@@ -57,4 +57,12 @@ CHECKS["C01"] = {
             "by recorder classes, dpkt by a spec parser; correctness of OpenSSL-backed primitives and scapy serialisation is trusted "
             "(exercised only by the validated end-to-end replays). One record per TCP segment here; segmentation is C05.",
 }
+CHECKS["C15"] = {
+    "technique": "symbolic execution of the key-installation path (handshake parsing, generate_keys, key_derivator, Decryptor.parse_keys) with hashes/HMAC/HKDF as uninterpreted functions; installed keys compared with a reference key schedule by z3 (QF_UFBV)",
+    "text": "For every (cipher, MAC) class of the table in every version it is valid for and both key-log labels, with all secrets and "
+            "randoms symbolic, z3 shows that each key, IV and MAC secret installed in the Decryptor equals the RFC key schedule's "
+            "value under every interpretation of the hash primitives, hence under the real ones. Sampled instances are recomputed "
+            "with real hashes on the real code.",
+    "note": TRUST + "Primitives are arbitrary functions; their bit-level correctness (OpenSSL) is trusted. QUIC key schedules are covered once the QUIC harness is in place (see DESIGN.md).",
+}
 NOT_APPLICABLE = {}
